@@ -10,6 +10,7 @@ from __future__ import annotations
 
 import asyncio
 import os
+import re
 import datetime as _dt
 import gc
 import io
@@ -534,6 +535,10 @@ async def _mqtt_end(ctx, plan, lines, want, got, tr) -> None:
 # C02 monitor (pure half: monitored on the traffic of every rx run, not enumerated)
 # ---------------------------------------------------------------------------------------
 
+_STRUCT = re.compile(r"^(RQ|RP| I| W) (---|\d{3}) ((?:\d{2}:\d{6}|--:------) (?:\d{2}:\d{6}|--:------) (?:\d{2}:\d{6}|--:------)) "
+                     r"([0-9A-F]{4}) (\d{3}) ((?:[0-9A-F]{2})+)$")
+
+
 def monitor_c02(ctx, lines: list[str]) -> None:
     from ramses_tx.command import Command
 
@@ -541,7 +546,15 @@ def monitor_c02(ctx, lines: list[str]) -> None:
     for s in lines:
         try:
             pkt = Packet.from_port(_dt.datetime(2024, 1, 10, 12), s)
-        except Exception:  # noqa  (C01 judges these)
+        except exc.PacketInvalid:  # (C01 judges rejections)
+            continue
+        except Exception as err:  # noqa
+            # ... except that a structurally valid frame whose code the library has no schema for is still a frame: it parses and
+            # prints (the message layer, not the frame layer, is what does not know the code)
+            m = _STRUCT.match(s[4:]) if len(s) > 50 else None
+            if m and len(m.group(6)) == 2 * int(m.group(5)) and m.group(4) not in CODES_SCHEMA:
+                ctx.violate("C02", "print_parse", "unparseable_unknown_code:" + type(err).__name__, f"{s!r} is structurally valid (its "
+                            f"code {m.group(4)} is merely unknown) but cannot be parsed: {type(err).__name__}: {err}")
             continue
         n += 1
         frame = s.split("#")[0].split("*")[0].split("<")[0].strip()[4:]
